@@ -612,6 +612,7 @@ var allocUnbounded = false // set once a *big shape showed an unbounded allocati
 // terminates in reasonable time on a tree with that defect.
 var allocSeen = map[string]bool{}
 var allocSkipped = 0
+var retrying = false // confirmation replays of a case whose allocation exceeded the cap
 
 func allocClass(s shape) string {
 	ns := []string{}
@@ -664,7 +665,7 @@ func runFrameCase(c frameCase) vh.Result {
 			obs = append(obs, o)
 			break
 		}
-		if allocSeen[allocClass(s)] {
+		if allocSeen[allocClass(s)] && !retrying {
 			o.Out = "skipped"
 			allocSkipped++
 			obs = append(obs, o)
@@ -781,16 +782,44 @@ func runFrameCase(c frameCase) vh.Result {
 				if d := compareFrame(f, ex, it.Ng); d != "" {
 					fail("mismatch", it, "frame read back differs: "+d)
 				}
-			case "err":
+			case "err", "serr":
 				fail("accepted", it, fmt.Sprintf("malformed frame returned as %T %+v", f, f))
 			}
 		} else if o.Out == "err" && it.P == "ok" {
 			fail("rejected", it, "well-formed frame not read back: "+o.Err)
+		} else if o.Out == "err" && it.P == "serr" {
+			// stream error: the frame is refused, the session goes on.  The sentinel must be the next
+			// frame; whether the whole block was consumed shows on the header frames that follow.
+			var f2 spdy.Frame
+			var err2 error
+			p2, fin2 := vh.GuardTimeout(20*time.Second, func() { f2, err2 = b.ReadFrame() })
+			pf, isPing := f2.(*spdy.PingFrame)
+			switch {
+			case !fin2:
+				o.Next = "hang"
+				fail("hang", it, "ReadFrame (frame after a rejected one) did not return")
+			case p2 != "":
+				o.Next = "panic"
+				fail("panic", it, "reading the frame after a rejected one: "+p2)
+			case err2 != nil || !isPing || pf.Id != sentinel:
+				o.Next = fmt.Sprintf("lost: %T %v", f2, err2)
+				fail("boundary-after-reject", it, fmt.Sprintf("after rejecting the frame (%s) the following PING(%#x) was read as %T %+v err=%v",
+					o.Err, sentinel, f2, f2, err2))
+			default:
+				o.Next = "sentinel"
+			}
 		}
-		if (o.Out == "ok" || o.Out == "err") && o.Out != it.M {
+		mOut := it.M
+		if mOut == "serr" {
+			mOut = "err"
+		}
+		if (o.Out == "ok" || o.Out == "err") && o.Out != mOut {
 			drift = append(drift, fmt.Sprintf("%s: code %s, model %s", shapeKey(s), o.Out, it.M))
 		}
 		obs = append(obs, o)
+		if o.Out == "err" && it.P == "serr" && o.Next == "sentinel" && res.OK {
+			continue // stream error: the connection is still in use
+		}
 		if o.Out != "ok" || o.Next != "sentinel" {
 			break // connection is dead
 		}
@@ -826,7 +855,19 @@ func framesRun() {
 			vh.Emit(map[string]string{"_fatal": "bad case: " + err.Error()})
 			return
 		}
-		vh.Emit(runFrameCase(c))
+		r := runFrameCase(c)
+		// TotalAlloc is process-wide: an allocation by the runtime itself inside the measured window
+		// must not become a verdict.  An allocation made on the word of a length field is
+		// deterministic: the case is replayed on fresh framers and must exceed the cap every time.
+		for try := 0; try < 2 && !r.OK && strings.HasPrefix(r.Sig, "alloc/"); try++ {
+			retrying = true
+			r2 := runFrameCase(c)
+			retrying = false
+			if r2.OK || !strings.HasPrefix(r2.Sig, "alloc/") {
+				r = r2
+			}
+		}
+		vh.Emit(r)
 		n++
 		if n%64 == 0 {
 			vh.Flush() // results already produced survive a fatal error of the process
